@@ -95,6 +95,14 @@ class Spec:
                 if not p['parts']:
                     continue
                 n = 1 if not optional else rng.choice([1, 2])
+                if f['enums'] and str(n) not in f['enums']:
+                    # a counter with an enumeration (e.g. NoSides 1/2): the count must be one of its values
+                    ok = [int(e) for e in f['enums'] if e.isdigit() and 1 <= int(e) <= 2]
+                    if not ok:
+                        if p['req']:
+                            raise Unconforming()
+                        continue
+                    n = ok[0]
                 entries = []
                 for j in range(n):
                     e = self.instance_entry(p['parts'], optional, rng, depth + 1, j)
@@ -133,11 +141,15 @@ class Spec:
         return out
 
 
+class Unconforming(Exception):
+    """the generator cannot build a conforming instance of this shape"""
+
+
 def strip(fields):
     return [(f[0], f[1]) for f in fields]
 
 
-def make_cases(spec, tspec, rng, msgtypes, adoc_i, tdoc_i, quick):
+def make_cases(spec, tspec, rng, msgtypes, adoc_i, tdoc_i, quick, skipped):
     cases = []
     begin = 'FIXT.1.1' if spec.name.startswith('FIX50') else BEGIN[spec.name]
     specname = ('FIXT:' + spec.name) if spec.name.startswith('FIX50') else spec.name
@@ -155,10 +167,19 @@ def make_cases(spec, tspec, rng, msgtypes, adoc_i, tdoc_i, quick):
             sc.append([int(t), v])
         cases.append({'spec': specname, 'adoc': adoc_i, 'tdoc': tdoc_i, 'msgtype': mt, 'fields': sc, 'defect': {'k': kind, 'tag': tag},
                       'settings': settings, 'bytes': list(raw.encode('latin1'))})
+    mt_enum = set(tspec.bynum[35]['enums']) if 35 in tspec.bynum else set()
     for m in msgtypes:
         mt = m['msgtype']
+        if mt_enum and mt not in mt_enum:
+            # the transport specification's MsgType enumeration does not list this type (FIXT11.xml stops at
+            # the FIX 5.0 types): under it the message is not conforming, whatever the body
+            skipped.append(mt)
+            continue
         for optional in (False, True):
-            body = spec.instance(m['parts'], optional, rng)
+            try:
+                body = spec.instance(m['parts'], optional, rng)
+            except Unconforming:
+                continue
             if any(f[0] in hdr_defined for f in body):
                 continue        # a body part that is also a header field: ambiguous, skip this variant
             tags = [f[0] for f in body]
@@ -223,9 +244,15 @@ def make_cases(spec, tspec, rng, msgtypes, adoc_i, tdoc_i, quick):
             gi = [i for i, f in enumerate(body) if len(f) > 2 and top[i]]
             for i in gi[:2]:
                 nb = list(body)
-                nb[i] = (body[i][0], str(int(body[i][1]) + 1))
-                add(mt, nb, 'groupcount', body[i][0], DEFAULT)
-                add(mt, nb, 'groupcount', body[i][0], SETTINGS[4])
+                wrong = str(int(body[i][1]) + 1)
+                cen = spec.bynum[body[i][0]]['enums']
+                if cen and wrong not in cen:
+                    alt = [e for e in cen if e.isdigit() and e != body[i][1] and int(e) > 0]
+                    wrong = alt[0] if alt else None
+                if wrong is not None:
+                    nb[i] = (body[i][0], wrong)
+                    add(mt, nb, 'groupcount', body[i][0], DEFAULT)
+                    add(mt, nb, 'groupcount', body[i][0], SETTINGS[4])
                 first_len = body[i][3][0]
                 if first_len >= 2 and len(body[i + 1]) == 2 and len(body[i + 2]) == 2:
                     nb = list(body)
@@ -301,6 +328,7 @@ def run(ctx):
     tdoc_fixt = 1
     cases = []
     nmsg = 0
+    skipped = []
     for n in names:
         sp = Spec(n)
         docs.append(sp.doc)
@@ -310,7 +338,9 @@ def run(ctx):
         if quick:
             msgs = rng.sample(msgs, min(10, len(msgs)))
         nmsg += len(msgs)
-        cases += make_cases(sp, tspec if fixt else sp, rng, msgs, idx, tdoc_fixt if fixt else idx, quick)
+        cases += make_cases(sp, tspec if fixt else sp, rng, msgs, idx, tdoc_fixt if fixt else idx, quick, skipped)
+    if skipped:
+        ctx.notes.append('%d message types skipped: not in the MsgType enumeration of the transport specification (FIXT11.xml), e.g. %s' % (len(skipped), sorted(set(skipped))[:8]))
     cp = os.path.join(ctx.scratch, 'cases.ndjson')
     common.ndjson_write(cp, cases)
     tp = os.path.join(ctx.scratch, 'trace.ndjson')
